@@ -148,15 +148,21 @@ int main(int argc, char **argv)
          }
          cur = g_slack; g_sc = sc; curspd = g_spd;
       }
-      if (g_sc >= 4) for (it = 0; it < 200 * iters && cur >= 0; it++) {
-         int idx, lo = vchance(&r, 50) ? g_idx_bands : 0, hi = g_pos > lo ? g_pos : lo + 1, nv, ns;
+      if (g_sc >= 4) for (it = 0; it < 6 * iters && cur >= 0; it++) {
+         /* phase B: neighbours of the steered frame (one or two symbols re-drawn, the frame itself kept): they keep most of the
+            structure and re-draw the fractional bit positions at which the special reads happen */
+         int idx, nv;
          memcpy(keep, g_tape, sizeof keep);
-         idx = vrange(&r, lo, hi - 1);
+         idx = vrange(&r, 0, g_pos > 1 ? g_pos - 1 : 1);
          g_tape[idx % TAPE] = (uint32_t)vnext(&r);
-         run(1, pk, len + 1, st); nv = g_slack; ns = special();
+         if (vchance(&r, 50)) g_tape[vrange(&r, 0, g_pos > 1 ? g_pos - 1 : 1) % TAPE] = (uint32_t)vnext(&r);
+         run(1, pk, len + 1, st); nv = g_slack;
          if (g_spd >= 0 && g_spd < 4 && nv >= 0 && nv < 8) g_dh[g_spd][nv]++;
-         if (ns >= g_sc && (nv < cur || (nv == cur && g_spd >= curspd))) { cur = nv; curspd = g_spd; } else { memcpy(g_tape, keep, sizeof keep); run(1, pk, len + 1, st); }
+         if (nv < 0) { cur = nv; break; }
+         if (nv < cur) cur = nv;
+         memcpy(g_tape, keep, sizeof keep);
       }
+      if (cur >= 0) run(1, pk, len + 1, st);
       g_hist_sc[g_sc]++;
       if (cur < best_all) best_all = cur;
       /* the packet the shadow encoder wrote for the kept tape, decoded for real */
